@@ -27,6 +27,86 @@ class M(Market):
 '''
 
 
+# Rules whose expected number of reports on the repository is ZERO carry a positive example here: on every run each
+# rule must fire on its fixture (a rule that silently stopped matching would otherwise pass forever).
+FIXTURE_ZERO_RULES = '''
+import copy
+
+CACHE = {}
+
+class Status:
+    def __init__(self, ts, data):
+        self.ts = ts
+        self.data = data
+
+class Holder:
+    shared = {}
+
+    def __init__(self, items=[]):
+        self.items = items
+        self._data = None
+        self.market_status = None
+
+    def remember(self, k, v):
+        self.shared[k] = v
+
+    def set_market_status(self, st):
+        self.market_status = st
+
+    def fill(self, orders, n):
+        for o in orders:
+            o[1] -= n
+
+    def trade(self, name, n):
+        row = self._data.loc[name]
+        book = list(row.asks)
+        self.fill(book, n)
+
+    def trade_ok(self, name, n):
+        row = self._data.loc[name]
+        book = copy.deepcopy(row.asks)
+        self.fill(book, n)
+
+def memo(x):
+    CACHE[x] = x
+    return CACHE[x]
+
+def refresh(markets, ts):
+    st = Status(ts, None)
+    for m in markets:
+        m.set_market_status(st)
+
+def refresh_ok(markets, ts):
+    for m in markets:
+        m.set_market_status(Status(ts, None))
+'''
+
+
+def positive_fixtures():
+    from .report import Result
+    from .rules.alias import cell_mutation_rule, loop_sharing_rule
+    from .rules.fresh import fresh_rule
+    with tempfile.TemporaryDirectory() as d:
+        os.makedirs(os.path.join(d, "demeter", "core"))
+        open(os.path.join(d, "demeter", "__init__.py"), "w").write("")
+        open(os.path.join(d, "demeter", "core", "__init__.py"), "w").write("")
+        open(os.path.join(d, "demeter", "core", "z.py"), "w").write(textwrap.dedent(FIXTURE_ZERO_RULES))
+        m = Model(d)
+        r = Result("T", "selftest")
+        fresh_rule(m, r)
+        kinds = sorted({f.construct.split()[0] for f in r.findings})
+        assert any("default" in f.construct for f in r.findings), ("S1 mutable default not reported", kinds)
+        assert any("class attribute" in f.construct for f in r.findings), ("S2 class attribute not reported", kinds)
+        assert any("module object" in f.construct for f in r.findings), ("S3 module object not reported", kinds)
+        r = Result("T", "selftest")
+        mut, nf = cell_mutation_rule(m, r)
+        assert nf == 1 and "Holder.fill" in mut and any("Holder.trade" == f.func for f in r.findings) \
+            and not any("trade_ok" in f.func for f in r.findings), ("cell mutation rule", mut, [f.func for f in r.findings])
+        r = Result("T", "selftest")
+        loop_sharing_rule(m, r, scope=())
+        assert [f.func for f in r.findings] == ["core.z.refresh"], ("loop sharing rule", [f.func for f in r.findings])
+
+
 def main():
     with tempfile.TemporaryDirectory() as d:
         os.makedirs(os.path.join(d, "demeter"))
@@ -47,6 +127,7 @@ def main():
         f = m.func("M.op")
         out, raises = Interp(m, T()).run(f, f.cls)
         assert seen["w"] >= 2 and seen["r"] >= 2 and len(raises) == 2, (seen, len(raises))
+    positive_fixtures()
     from .norm import Rat
     from .vn import sym
     a, b = sym("a"), sym("b")
